@@ -938,7 +938,8 @@ class mulgrid(object):
 
     def get_right_justified_names(self):
         """Returns True if character part of block names are right-justified."""
-        return all([(blkname[0:3] == blkname[0:3].rjust(3)) for
+        n = [3, 3, 2, 3][self.convention] # (length of the character part)
+        return all([(blkname[0:n] == blkname[0:n].strip().rjust(n)) for
                     blkname in self.block_name_list])
     right_justified_names = property(get_right_justified_names)
 
